@@ -150,7 +150,7 @@ class PathOracle:
 # --------------------------------------------------------------------------
 
 REGIMES = {
-    'zero': 0.0, 'tiny': 1e-20, 'subeps': 1e-17, 'small': 1e-3, 'generic': 1.0, 'large': 7.0,
+    'zero': 0.0, 'tiny': 1e-20, 'subeps': 1e-17, 'sqrteps': 3e-8, 'micro': 1e-5, 'small': 1e-3, 'generic': 1.0, 'large': 7.0,
 }
 
 class InputDecl:
@@ -567,8 +567,13 @@ def run_symbolic(fn, loader, max_paths=64, z3_timeout=2000, seed=0, witness_trie
             outcome = 'infeasible'
         except StopPath:
             outcome = 'ok'
-        except EngineGap as e:
-            outcome = 'gap'; err = str(e)
+        except (EngineGap, NotImplementedError) as e:
+            # a NotImplementedError raised by the model (pvc/*) is an engine gap, not a verdict on the code
+            tb = traceback.extract_tb(e.__traceback__)
+            if isinstance(e, EngineGap) or (tb and '/pvc/' in tb[-1].filename):
+                outcome = 'gap'; err = f'{type(e).__name__}: {e}'
+            else:
+                outcome = 'raised'; err = f'NotImplementedError: {str(e)[:300]}\n' + traceback.format_exc()[-1500:]
         except AssertionError as e:
             outcome = 'raised'; err = 'AssertionError: ' + str(e)[:300] + '\n' + traceback.format_exc()[-1500:]
         except Exception as e:
